@@ -49,6 +49,12 @@ def features(q):
         if k in ("match", "optional match"):
             parts = re.split(r",\s*(?=[a-z_0-9]*\s*=?\s*\()", text)
             vs_all = []
+            if len(parts) > 1:
+                f.add("comma-patterns")
+            if k == "optional match" and f & {"rel-pattern"}:
+                # OPTIONAL MATCH after an earlier clause that matched a relationship pattern (two different paths with the same end nodes
+                # give equal rows once the relationship column is pruned: the outer join is keyed on the remaining columns)
+                f.add("optional-match-after-rel-pattern")
             for p in parts:
                 vs = [v for v in pattern_vars(p)]
                 nodes = re.findall(r"\(\s*([a-z_][a-z0-9_]*)", p)
@@ -64,6 +70,10 @@ def features(q):
                     f.add("varlen")
                     if seen_frame:
                         f.add("varlen-after-earlier-clause")
+                undirected = bool(re.search(r"\)\s*-\s*(?:\[[^\]]*\]\s*)?-\s*\(", p)) and not re.search(r"\)\s*<-\s*(?:\[[^\]]*\]\s*)?-\s*\(|\)\s*-\s*(?:\[[^\]]*\]\s*)?->\s*\(", p) or \
+                    bool(re.search(r"\)\s*--\s*\(|\)\s*-\s*\[[^\]]*\]\s*-\s*\(", p))
+                if undirected and any(v in bound for v in vs):
+                    f.add("undirected-step-in-pattern-that-uses-earlier-binding")
                 if len(nodes) != len(set(nodes)):
                     f.add("same-node-var-twice-in-pattern")
                     if has_var:
@@ -94,8 +104,14 @@ def features(q):
             if seen_frame:
                 f.add("match-after-earlier-clause")
             if wh:
+                if re.search(r"\blabels\s*\(", wh):
+                    f.add("labels-fn-in-where")
+                if re.search(r"\b(?:any|all|none|single)\s*\(", wh) and k == "optional match" and "rel-pattern" in f:
+                    f.add("quantifier-in-where-of-optional-match-with-rel-pattern")
                 if re.search(r"\(\s*[a-z_0-9]*\s*(?::[a-z0-9_:]+)?\s*\)\s*(?:<-|-)", wh):
                     f.add("pattern-predicate")
+                    if len(parts) > 1 and k == "optional match":
+                        f.add("pattern-predicate-in-optional-match-with-comma-patterns")
                 used = set(re.findall(r"\b([a-z_][a-z0-9_]*)\b", wh))
                 if used & (bound - set(vs_all)):
                     f.add("where-reads-earlier-binding")
